@@ -127,6 +127,13 @@ func init() {
 		Find: "received = price.MulInt(amt).TruncateInt()", Replace: "received = price.MulInt(amt).Ceil().TruncateInt()", Rule: "R05.1", Contains: "SetReceivedDemandCoinAmount"})
 	addControl(Control{Prop: "C05", Name: "overfill-guard-dropped", File: "x/liquidity/amm/match.go",
 		Find: "\tif amt.GT(matchableAmt) {\n\t\tpanic(fmt.Errorf(\"cannot match more than open amount; %s > %s\", amt, matchableAmt))\n\t}\n", Replace: "\t_ = matchableAmt\n\t_ = fmt.Sprint()\n", Rule: "R05.2", Contains: "FillOrder"})
+	// ---- C05 (late rules) ----
+	addControl(Control{Prop: "C05", Name: "matchable-per-direction-helpers", File: "x/liquidity/amm/util.go",
+		Find:    "\tcase Sell:\n\t\tmatchableAmt = order.GetOpenAmount()\n\t}\n\tif price.MulInt(matchableAmt).TruncateInt().IsZero() {\n\t\tmatchableAmt = zeroInt\n\t}\n\treturn\n}",
+		Replace: "\tcase Sell:\n\t\tmatchableAmt = order.GetOpenAmount()\n\t}\n\treturn dustToZeroZZ(matchableAmt, price)\n}\n\nfunc dustToZeroZZ(amt sdkmath.Int, price sdkmath.LegacyDec) sdkmath.Int {\n\tif price.MulInt(amt).TruncateInt().IsZero() {\n\t\treturn zeroInt\n\t}\n\treturn amt\n}", Negative: true})
+	addControl(Control{Prop: "C05", Name: "fulfill-judged-at-limit-price", File: "x/liquidity/amm/match.go",
+		Find:    "\tquoteCoinDiff = sdkmath.ZeroInt()\n\tmatchableAmt := MatchableAmount(order, price)\n\tif matchableAmt.IsPositive() {",
+		Replace: "\tquoteCoinDiff = sdkmath.ZeroInt()\n\tmatchableAmt := MatchableAmount(order, order.GetPrice())\n\tif matchableAmt.IsPositive() {", Rule: "R05.7", Contains: "FulfillOrder"})
 	// ---- C06 ----
 	addControl(Control{Prop: "C06", Name: "deposit-accepted-truncated", File: "x/liquidity/amm/pool.go",
 		Find: "ax = rx.Mul(mintProportion).Ceil().TruncateInt()", Replace: "ax = rx.Mul(mintProportion).TruncateInt()", Rule: "R06.1", Contains: "result ax"})
